@@ -748,7 +748,7 @@ def apply_external(robot, case, obs, i, op):
         if b < a:
             robot.take(rack, j, a - b, require_min=False)
         elif b > a:
-            robot.put(rack, j, b - a, None, False)
+            robot.put(rack, j, b - a, None, False, check=False)
     return
 
 
@@ -904,7 +904,10 @@ def oracle_C03(case, obs):
             apply_external(robot, case, obs, i, op)
             continue
         if k in ("evo_asp", "evo_disp"):
-            # script commands address grid/site, not rack labels: checked by C13; mirror the tracking here
+            # script commands address grid/site, not rack labels (decoded by the C13 oracle); here: a step that the
+            # volume checks or the argument checks refused must not be present in the worklist
+            if st["exc"] is not None and any(is_script(r) for r in st["recs"]):
+                bad.append(f"rejected-step: call {i} ({k}) raised {st['exc']} but its command {[r for r in st['recs'] if is_script(r)][0][:60]!r} is in the worklist")
             apply_external(robot, case, obs, i, op)
             continue
         if k == "distribute" and case["dev"] == "fluent" and L[op["src"]]["kind"] == "trough" and L[op["src"]]["vrows"] > 1:
